@@ -85,6 +85,19 @@ var rRedactableOps = &Rule{
 				case *ssa.Convert, *ssa.ChangeType:
 					if isRedactableStringType(in.(ssa.Value).Type()) {
 						n++
+						// round 12: nor is a cut taken just BEFORE the value is declared redactable: a conversion to a
+						// redactable type asserts "the markers in here are balanced", which a prefix/suffix/substring
+						// of a marked-up buffer is not (x[:] - no bounds - is the whole value)
+						var op ssa.Value
+						switch cv := in.(type) {
+						case *ssa.Convert:
+							op = cv.X
+						case *ssa.ChangeType:
+							op = cv.X
+						}
+						if cut := cutBeforeConversion(op, map[ssa.Value]bool{}, 0); cut != nil && !isRedactableStringType(op.Type()) {
+							c.Fail(load.FnName(fn)+": conversion of a cut buffer to "+load.TypeName(in.(ssa.Value).Type()), sx.InstrPos(in), "a sub-slice (cut at "+fnPosStr(fn, cut.Pos())+") of a buffer is declared redactable: when the buffer holds redaction markers the cut can fall between an opening and a closing marker - the output is not well-formed and the text after the opening marker is left unredacted")
+						}
 					}
 					return
 				default:
@@ -836,4 +849,42 @@ var rStackParse = &Rule{
 			c.Undecided("withstack.parsePrintedStackEntry: file/line split", fn.Pos(), "no search for the ':' separator recognised")
 		}
 	},
+}
+
+// cutBeforeConversion: v is (through phis and string/[]byte conversions) the result of a slice expression with at
+// least one bound.
+func cutBeforeConversion(v ssa.Value, seen map[ssa.Value]bool, d int) *ssa.Slice {
+	if v == nil || seen[v] || d > 8 {
+		return nil
+	}
+	seen[v] = true
+	switch x := v.(type) {
+	case *ssa.Slice:
+		if x.Low != nil || x.High != nil {
+			if k, isK := sx.ConstInt(x.Low); x.High == nil && isK && k == 0 {
+				return cutBeforeConversion(x.X, seen, d+1)
+			}
+			return x
+		}
+		return cutBeforeConversion(x.X, seen, d+1)
+	case *ssa.Phi:
+		for _, e := range x.Edges {
+			if s := cutBeforeConversion(e, seen, d+1); s != nil {
+				return s
+			}
+		}
+	case *ssa.Convert:
+		return cutBeforeConversion(x.X, seen, d+1)
+	case *ssa.ChangeType:
+		return cutBeforeConversion(x.X, seen, d+1)
+	}
+	return nil
+}
+
+func fnPosStr(fn *ssa.Function, pos token.Pos) string {
+	if fn == nil || fn.Prog == nil || !pos.IsValid() {
+		return "?"
+	}
+	p := fn.Prog.Fset.Position(pos)
+	return fmt.Sprintf("line %d", p.Line)
 }
